@@ -2,11 +2,14 @@
 // pilota_build::Builder taken from /repo's working tree.
 #[path = "src/corpus_def.rs"]
 mod corpus_def;
+#[path = "src/pcorpus_def.rs"]
+mod pcorpus_def;
 
 use std::path::PathBuf;
 
 fn main() {
     println!("cargo:rerun-if-changed=src/corpus_def.rs");
+    println!("cargo:rerun-if-changed=src/pcorpus_def.rs");
     println!("cargo:rerun-if-changed=build.rs");
     println!("cargo:rerun-if-changed=proto");
     println!("cargo:rustc-check-cfg=cfg(pilota_verif)");
@@ -39,5 +42,18 @@ fn main() {
         .compile_with_config(
             vec![pilota_build::IdlService::from_path(keep.clone())],
             pilota_build::Output::File(out.join("corpus_keep_gen.rs")),
+        );
+
+    // protobuf corpus
+    let pc = pcorpus_def::pcorpus();
+    let ptext = pcorpus_def::print_proto(&pc);
+    let pfile = idl_dir.join("pcorpus.proto");
+    std::fs::write(&pfile, &ptext).unwrap();
+    pilota_build::Builder::protobuf()
+        .ignore_unused(false)
+        .include_dirs(vec![idl_dir.clone()])
+        .compile_with_config(
+            vec![pilota_build::IdlService::from_path(pfile.clone())],
+            pilota_build::Output::File(out.join("pcorpus_gen.rs")),
         );
 }
